@@ -24,7 +24,8 @@ HasFwd(op) == op \in {"pipe-ok", "pipe-fail", "pipe-fail-plain"}
 \* history of the target's path: "fresh" = first actor ever under that path; "recreated" = an earlier actor under
 \* the same path received a message from the operator, terminated, and a new actor was spawned under the same name
 \* "after-failed-encode" = just before the operation the operator sent another system a message whose encoding fails
-Hists == {"fresh", "recreated", "after-failed-encode"}
+\* "long-paths" = the operator's and the target's paths are longer than 255 bytes
+Hists == {"fresh", "recreated", "after-failed-encode", "long-paths"}
 \* who performs the operation: an actor through its ActorContext, or the program through the ActorSystem handle (the root
 \* context: its references and the reply addresses of its Asks have no actor segment)
 Bys == {"actor", "system"}
@@ -33,6 +34,7 @@ Cases == {c \in [op : Ops, target : Locs, fwd : Locs \cup {"-"}, flavour : Flavo
             /\ (HasFwd(c.op) <=> c.fwd # "-")
             /\ (Carries(c.op) <=> c.flavour # "-")
             /\ (c.hist = "recreated" => c.op \in {"tell", "ask", "kill", "ping"} /\ c.flavour \in {"registered", "-"})
+            /\ (c.hist = "long-paths" => c.op \in {"tell", "ask", "kill", "pkill", "ping", "watch"} /\ c.flavour \in {"registered", "-"})
             /\ (c.hist = "after-failed-encode" => c.op \in {"tell", "ask", "kill", "ping", "watch"} /\ c.flavour \in {"registered", "-"})}
 
 \* the observable effect, the same wherever the references point
